@@ -7,6 +7,8 @@ sequence of evaluation requests, failing ones included; nothing is bounded.
 -/
 import SteelVerif.C14.LemmasRefC
 import SteelVerif.C14.GenConsts
+import SteelVerif.C14.LemmasContract
+import SteelVerif.C14.Prune
 namespace SteelVerif.C14
 
 /-! ## 0. What the model takes from the source (regenerated from /repo on every run) -/
@@ -563,6 +565,164 @@ theorem module_reads_own_definition (g : Graph) (reqs : List Request) (hg : grap
   have := own_definition_shadows_imports hg k d hd
   unfold senv at this
   rw [this]
+
+/-! ## 6. Contracts are checked at the module boundary, exactly there -/
+
+section Contracts
+open Contract
+
+/-- What the contract model takes from `contracts.scm` (regenerated on every run): `bind/c` serves every arity by
+a path that passes the parameters on in order (arities 0–3 specialised, everything else through
+`verify-preconditions-test`), each path tests parameter `i` against pre-condition `i` for every `i`, left to
+right, applies the function to the TESTED values (a function-valued argument is thereby replaced by its wrapped
+version) and sends the result through `check-output`; a flat contract applies its predicate to the value, a
+function contract wraps the value with `bind/c`. -/
+theorem contract_table_matches_source :
+    tableOK Gen.contractPaths Gen.generalValidatesAllInOrder = true ∧
+    Gen.flatAppliesPredicate = true ∧ Gen.functionContractWraps = true := by decide
+
+/-- **M = S for a call through a `contract/out` export**, for every contract of order ≤ 2 with any number of
+parameters, every function body (whatever callbacks it calls, how often, and with what), every argument list and
+every interpretation of the predicates: the mechanism of `contracts.scm` performs exactly the checks of S — each
+first-order argument against the predicate of its position when it crosses into the module, left to right,
+before the body runs; each argument and the result of every call the module makes of a callback that crossed
+under a function contract, when they cross; the result when it crosses out — in the same order, with the same
+outcome (value, or the violation of the first check that fails). -/
+theorem contract_checked_at_boundary (holds : Nat → Nat → Bool) (c : FnC) (body : Prog) (args : List AVal) :
+    callM holds c body args = callS holds c body args :=
+  bind2_eq (pathSem_ok contract_table_matches_source.1) holds c body args
+
+/-- **… and only there**: a call from inside the module (the name is bound to the bare definition there —
+`contract_at_boundary_only`) with arguments that did not cross a boundary performs no check at all. -/
+theorem contract_not_checked_inside (body : Prog) (args : List AVal) (h : ∀ a ∈ args, a.Raw) :
+    (callInside body args).trace = [] := run_raw args h body
+
+/-- **Exactly once, in order, before the body**: when every argument satisfies the predicate of its position,
+the checks of a call from outside are: one per first-order argument (`crossings`, left to right), then whatever
+the body's calls of its (wrapped) callbacks check, then the result. -/
+theorem contract_call_ok (holds : Nat → Nat → Bool) (c : FnC) (body : Prog) (args : List AVal)
+    (hk : kindOK c.doms args = true) (hh : ∀ ch ∈ crossings c.doms args, holds ch.p ch.v = true) (r : Nat)
+    (hr : (run (crossed holds c.doms args) body).res = .ok r) :
+    callM holds c body args =
+      ⟨crossings c.doms args ++ (run (crossed holds c.doms args) body).trace ++ [⟨c.rng, r⟩],
+        if holds c.rng r then .ok r else .violation c.rng r⟩ := by
+  rw [contract_checked_at_boundary]
+  unfold callS
+  simp [kindOK_length _ _ hk, validateAll_ok holds c.doms args hk hh, hr]
+
+/-- **A violating argument is rejected at the boundary**: the first first-order argument that fails its
+predicate stops the call — the checks performed are the ones up to it, the body does not run (no callback is
+called), the result is that violation. -/
+theorem contract_violation_stops_at_boundary (holds : Nat → Nat → Bool) (c : FnC) (body : Prog)
+    (args : List AVal) (hk : kindOK c.doms args = true) (pre post : Trace) (ch : Check)
+    (hc : crossings c.doms args = pre ++ ch :: post) (hpre : ∀ x ∈ pre, holds x.p x.v = true)
+    (hch : holds ch.p ch.v = false) :
+    callM holds c body args = ⟨pre ++ [ch], .violation ch.p ch.v⟩ := by
+  rw [contract_checked_at_boundary]
+  unfold callS
+  simp [kindOK_length _ _ hk, validateAll_viol holds c.doms args pre post ch hk hc hpre hch]
+
+/-- Non-vacuity, and the shapes of the harness (`contract_text`, `obs_expr`): a function of four parameters whose
+first is a callback under `(->/c int? int?)`; the good call checks the three integers, then — when the body
+calls the callback with `1` — the `1` going out and the `1` coming back, then the result: `c14-int?` is
+evaluated 5 times; the same call from inside the module evaluates it 0 times; a non-integer in the last position
+is rejected after 3 evaluations and the callback is never called; a callback that returns a non-integer is caught
+when its result crosses. -/
+example : callM holdsStd (contractH 4) bodyH (argsH 4) =
+    ⟨[⟨0, 1⟩, ⟨0, 2⟩, ⟨0, 3⟩, ⟨0, 1⟩, ⟨0, 1⟩, ⟨1, 7⟩], .ok 7⟩ := by decide +kernel
+example : (callInside bodyH (argsH 4)).trace = [] := by decide +kernel
+example : callM holdsStd (contractH 4) bodyH [.fn (rawCb fun as => as.headD 0), .val 1, .val 2, .val 1000] =
+    ⟨[⟨0, 1⟩, ⟨0, 2⟩, ⟨0, 1000⟩], .violation 0 1000⟩ := by decide +kernel
+example : callM holdsStd (contractH 4) bodyH [.fn (rawCb fun _ => 1000), .val 1, .val 2, .val 3] =
+    ⟨[⟨0, 1⟩, ⟨0, 2⟩, ⟨0, 3⟩, ⟨0, 1⟩, ⟨0, 1000⟩], .violation 0 1000⟩ := by decide +kernel
+example : (List.range 7).map (predictedChecks true true true) = (List.range 7).map (predictedChecks false true true) ∧
+    predictedChecks true true true 2 = 3 ∧ predictedChecks true true true 6 = 7 ∧
+    predictedChecks true true false 1 = 1 ∧ predictedChecks true false true 4 = 0 := by decide +kernel
+
+/-- What the obligation on the table excludes (the seeded change C14-m3): a general path that applies the
+function to the RAW arguments lets a violating callback through. -/
+example :
+    let sem : Nat → PathSem := fun n => ⟨idTests n, false, true⟩
+    bind2 sem holdsStd (contractH 4) (fun as => run as bodyH) [.fn (rawCb fun _ => 1000), .val 1, .val 2, .val 3] =
+      ⟨[⟨0, 1⟩, ⟨0, 2⟩, ⟨0, 3⟩, ⟨1, 7⟩], .ok 7⟩ := by decide +kernel
+
+end Contracts
+
+/-! ## 7. Unused-import pruning never drops a used import -/
+
+/-- What the pruning model takes from `analysis.rs` / `compiler.rs` (regenerated on every run): every removal
+of a define sits under all four conditions — the name starts with the prefix, `usage_count == 0`, the body is a
+generated `(%module-get% …)` / `(%proto-hash-get% …)`, and no macro mentions the name —, and every caller passes
+`MANGLER_PREFIX`. -/
+theorem prune_sites_match_source :
+    Gen.pruneDefineSites ≠ [] ∧
+    Gen.pruneDefineSites.all (fun s => s.prefixed && s.unused && s.importBody && s.macroKeep) = true ∧
+    Gen.pruneCallersPassManglerPrefix = true := by decide
+
+/-- **A define that is used is never pruned**, whatever else is in the unit. -/
+theorem prune_keeps_used (ds : List TopDefine) (d : TopDefine) (hd : d ∈ ds) (hu : 0 < d.uses) :
+    d ∈ prune Gen.pruneDefineSites manglerPrefix ds := by
+  unfold prune
+  rw [List.mem_filter]
+  refine ⟨hd, ?_⟩
+  simp only [Bool.not_eq_true', List.any_eq_false]
+  intro s hs
+  have hall := prune_sites_match_source.2.1
+  rw [List.all_eq_true] at hall
+  have := hall s hs
+  simp only [Bool.and_eq_true] at this
+  have hne : (d.uses == 0) = false := by simpa using Nat.pos_iff_ne_zero.mp hu
+  simp [siteRemoves, this.1.1.2, hne]
+
+/-- **Only unused generated imports are pruned**: what is removed has a mangled-prefix name, no use, an
+import body, and is mentioned by no macro; in particular no define a program can write is ever removed. -/
+theorem prune_removes_only_unused_imports (ds : List TopDefine) (d : TopDefine) (hd : d ∈ ds)
+    (hr : d ∉ prune Gen.pruneDefineSites manglerPrefix ds) :
+    manglerPrefix.isPrefixOf d.name = true ∧ d.uses = 0 ∧ d.importBody = true ∧ d.inMacro = false := by
+  unfold prune at hr
+  rw [List.mem_filter] at hr
+  have hex : (Gen.pruneDefineSites.any fun s => siteRemoves s manglerPrefix d) = true := by
+    cases h : (Gen.pruneDefineSites.any fun s => siteRemoves s manglerPrefix d) with
+    | true => rfl
+    | false => exact absurd ⟨hd, by simp [h]⟩ hr
+  rw [List.any_eq_true] at hex
+  obtain ⟨s, hs, hrm⟩ := hex
+  have hall := prune_sites_match_source.2.1
+  rw [List.all_eq_true] at hall
+  have := hall s hs
+  simp only [Bool.and_eq_true] at this
+  obtain ⟨⟨⟨a, b⟩, c⟩, e⟩ := this
+  have hrm' : ((manglerPrefix.isPrefixOf d.name = true ∧ d.uses = 0) ∧ d.importBody = true) ∧ d.inMacro = false := by
+    simpa [siteRemoves, a, b, c, e] using hrm
+  exact ⟨hrm'.1.1.1, hrm'.1.1.2, hrm'.1.2, hrm'.2⟩
+
+theorem prune_keeps_user_defines (ds : List TopDefine) (d : TopDefine) (hd : d ∈ ds) (hs : SourceIdent d.name) :
+    d ∈ prune Gen.pruneDefineSites manglerPrefix ds := by
+  by_cases h : d ∈ prune Gen.pruneDefineSites manglerPrefix ds
+  · exact h
+  · exfalso
+    have hp := (prune_removes_only_unused_imports ds d hd h).1
+    rw [List.isPrefixOf_iff_prefix] at hp
+    obtain ⟨t, ht⟩ := hp
+    exact hs ⟨['m', 'm'] ++ t, by rw [← ht]; rfl⟩
+
+/-- Non-vacuity: a unit with a used import, an unused import, an unused import that a macro mentions, an unused
+private define and a program's own unused define: exactly the unused import goes. -/
+example :
+    let u : List TopDefine :=
+      [⟨mangle 3 ['a'], 2, true, false⟩, ⟨mangle 3 ['b'], 0, true, false⟩, ⟨mangle 3 ['c'], 0, true, true⟩,
+       ⟨mangle 3 ['p'], 0, false, false⟩, ⟨['q'], 0, true, false⟩]
+    (prune Gen.pruneDefineSites manglerPrefix u).map (·.name) =
+      [mangle 3 ['a'], mangle 3 ['c'], mangle 3 ['p'], ['q']] := by decide
+
+/-! ## 8. The require forms that exist -/
+
+/-- `parse_require_object_inner` accepts a string literal and exactly the list forms `only-in`, `prefix-in` and
+`for-syntax` (the latter with a string literal only); every other list — `rename-in`, `except-in`, … — is a
+syntax error.  Renaming exists only as the `(from to)` entries of `only-in` (`Spec.onlyIn`). -/
+theorem require_forms_match_source :
+    Gen.requireForms = ["only-in", "prefix-in", "for-syntax"] ∧ Gen.requireOtherListIsError = true ∧
+    Gen.forSyntaxTakesStringOnly = true := by decide
 
 /-! ## Clauses of the property not carried by a theorem
 
